@@ -2,6 +2,8 @@
   C09 — Formatting never changes the program.  Property theorems only.
 -/
 import SplVerif.Model.Format
+import SplVerif.Lemmas.FmtProgram
+import SplVerif.Props.C06
 
 namespace Spl.C09
 open Spl.Fmt Spl.Feat
@@ -28,5 +30,60 @@ theorem whole_document_edit (d : AnalyzedSource) (sp : Bool) (ts : Nat) (r : Pos
 theorem display_char_newline : Parse.displayToken (.Char '\n') = ['\'', '\\', 'n', '\''] := by decide
 theorem display_hex_10 : Parse.displayToken (.Hex (.Int 10)) = "0x0A".toList := by decide
 theorem display_hex_4096 : Parse.displayToken (.Hex (.Int 4096)) = "0x1000".toList := by decide
+
+
+/-! ### formatting keeps every token -/
+
+/-- the formatter's options as `features::format` builds them from the request -/
+def optionsOf (insertSpaces : Bool) (tabSize : Nat) : Options := if insertSpaces then ⟨' ', tabSize⟩ else ⟨'\t', 1⟩
+
+theorem optionsOf_ok (insertSpaces : Bool) (tabSize : Nat) : FmtStmt.OptOK (optionsOf insertSpaces tabSize) := by
+  cases insertSpaces
+  · exact Or.inr rfl
+  · exact Or.inl rfl
+
+/-- **C09 for programs without comments (`format_preserves_tokens_partial`).**  For every lexically valid text
+    without comments (the independent lexer specification tokenises it into `toks`) from whose tokens the grammar
+    specification derives a program `p` — i.e. for every syntactically valid comment-free SPL text of any size —,
+    for every `insertSpaces` and `tabSize`: the formatter model succeeds on `p`, and tokenising the text it prints
+    (with the lexer specification, hence — `C06.lex_conforms` — with the model of `lexer::lex`) yields tokens of
+    exactly the types of the original tokens, in order.  Token types carry the spelling of identifiers and the value
+    of literals: nothing is lost, added, merged, split, renamed or re-valued, whatever the original layout was.
+    PARTIAL with respect to the property only in that texts with comments are not covered by the theorem (they are
+    judged on every run: JUDGEFMT09). -/
+theorem format_preserves_tokens_partial (insertSpaces : Bool) (tabSize : Nat) (text : List Char) (toks : List Token)
+    (p : Program) (h1 : LexSpec.lex text = some toks) (h2 : ∀ t ∈ toks, t.kind ≠ Kind.Comment)
+    (h3 : Grammar.parse toks = some p) :
+    ∃ out ts', fmtProgram (optionsOf insertSpaces tabSize) p toks.toArray = .ok out ∧
+      LexSpec.lex out = some ts' ∧ lex out = .ok ts' ∧ ts'.map (·.ty) = toks.map (·.ty) := by
+  obtain ⟨out, ts', e1, e2, e3⟩ :=
+    FmtProgram.format_lexes (optionsOf insertSpaces tabSize) (optionsOf_ok insertSpaces tabSize) text toks p h1 h2 h3
+  exact ⟨out, ts', e1, e2, C06.lex_conforms out ts' e2, e3⟩
+
+/-- … in terms of the request handler: for a document whose tokens and tree are those of its (valid, comment-free)
+    text, `textDocument/formatting` answers `null` or one edit whose new text has the tokens of the old text. -/
+theorem format_request_preserves_tokens (d : AnalyzedSource) (insertSpaces : Bool) (tabSize : Nat)
+    (h1 : LexSpec.lex d.text = some d.tokens) (h2 : ∀ t ∈ d.tokens, t.kind ≠ Kind.Comment)
+    (h3 : Grammar.parse d.tokens = some d.ast) :
+    Fmt.format d insertSpaces tabSize = .ok none ∨
+    ∃ r out ts', Fmt.format d insertSpaces tabSize = .ok (some (r, out)) ∧ lex out = .ok ts' ∧
+      ts'.map (·.ty) = d.tokens.map (·.ty) := by
+  obtain ⟨out, ts', e1, _, e3, e4⟩ := format_preserves_tokens_partial insertSpaces tabSize d.text d.tokens d.ast h1 h2 h3
+  unfold Fmt.format
+  have : (if insertSpaces = true then (⟨' ', tabSize⟩ : Options) else ⟨'\t', 1⟩) = optionsOf insertSpaces tabSize := rfl
+  simp only [this, e1]
+  by_cases hc : (out == d.text) = true
+  · left; simp [hc]
+  · right
+    exact ⟨asPosRange ⟨0, utf8Len d.text⟩ d.text, out, ts', by simp [hc], e3, e4⟩
+
+/-- Non-vacuity: a comment-free program with a procedure, parameters, an array type, `if`/`else`, `while`, a call
+    and literals of all three kinds meets the hypotheses of `format_preserves_tokens_partial`. -/
+example :
+    (match LexSpec.lex ("type v = array [0x10] of int;\nproc f(ref a: v, i: int) {\n  var k: int;\n  " ++
+        "if (i < 10) a[i] := -'x'; else { while (k # 0) k := k - 1; }\n  f(a, (i + 1) * 2);\n}\nproc main() {}").toList with
+      | some toks => toks.all (fun t => t.kind != Kind.Comment) && (Grammar.parse toks).isSome
+      | none => false) = true := by
+  decide +kernel
 
 end Spl.C09
